@@ -38,7 +38,7 @@ func endpointCycle(src, dst, dataDir string, mutate func(), begin, end func()) (
 		return "", 0, fmt.Errorf("beta endpoint: %w", err)
 	}
 	defer beta.Shutdown()
-	stagingRoot = filepath.Join(dataDir, "staging", session+"_beta")
+	stagingRoot = filepath.Join(dataDir, "staging", session+"-beta")
 
 	ctx := context.Background()
 	begin()
